@@ -3,7 +3,7 @@
     on the model. *)
 From SkimV Require Export Common.Base Gen.RankTable Model.Rank.
 
-Record case := {
+Record rcase := {
   c_opt : option text;          (* the --tiebreak string, None = option absent *)
   c_a : Z * N * N * N;          (* score, begin, end, length *)
   c_b : Z * N * N * N;
@@ -24,13 +24,33 @@ Definition mkvals (t : Z * N * N * N) : vals :=
 
 Definition cmp_code (c : comparison) : Z := match c with Lt => -1 | Eq => 0 | Gt => 1 end%Z.
 
-Definition model_out (c : case) :=
+Definition model_out (c : rcase) :=
   let cs := criteria_of_option (c_opt c) in
   let ra := build_rank cs (mkvals (c_a c)) in
   let rb := build_rank cs (mkvals (c_b c)) in
   (map ordinal cs, ra, rb, cmp_code (lex_cmp ra rb)).
 
-Definition check (c : case) : bool :=
+Definition check_r (c : rcase) : bool :=
   let '(cs, ra, rb, o) := model_out c in
   list_eqb N.eqb cs (i_criteria c) && list_eqb Z.eqb ra (i_rank_a c) &&
   list_eqb Z.eqb rb (i_rank_b c) && Z.eqb o (i_cmp c).
+
+(** Engine-level cases: a real engine (exact / fuzzy / regex / match-all, with or without --nth
+    ranges) matched a real item; [e_begin]/[e_end] are the start/end of the match *as reported in
+    matched_range* (first/last character index for fuzzy, byte span otherwise), [e_len] the text's
+    byte length, [e_score] the score recovered from the rank produced under "-score".  The rank the
+    engine produced must be build_rank of exactly these. *)
+Record ecase := {
+  e_opt : option text;
+  e_score : Z; e_begin : N; e_end : N; e_len : N;
+  e_rank : list Z
+}.
+
+Definition check_e (c : ecase) : bool :=
+  let cs := criteria_of_option (e_opt c) in
+  list_eqb Z.eqb
+    (build_rank cs {| v_score := e_score c; v_begin := e_begin c; v_end := e_end c; v_length := e_len c |})
+    (e_rank c).
+
+Inductive case := KRank (c : rcase) | KEngine (c : ecase).
+Definition check (c : case) : bool := match c with KRank r => check_r r | KEngine e => check_e e end.
